@@ -455,6 +455,9 @@ def stage_direct(ctx, pq, w):
         else:
             want, got = cmp_direct(m, res, len(rows))
         ctx.correspondence("run_v%d ~ _assemble_objects call sequence (read_col / read_data_page_v2 shape)" % v, case, want, got)
+        if classes:
+            # tightness of the theorem's guard (information, not an obligation): outside it the model is wrong
+            ctx.count("seq.model_outside_guard", "wrong rows or fault" if (m[0] != "ok" or m_rows_back(m[1]) != want_rows) else "rows")
         # theorem instance: on a good split the model returns the rows
         if not classes:
             ctx.correspondence("model on a good split = rows (instance of C15_pages_partial)", case,
@@ -527,8 +530,13 @@ def model_file(pq, case, written):
             if leaf["version"] == 1:
                 cmds.append(("run_v1", leaf["row_opt"], leaf["elem_opt"], n, mp))
             else:
-                cmds.append(("run_v2", False, leaf["row_opt"], leaf["elem_opt"], n,
-                             [[p, sum(1 for x in r if x == 0)] for p, (r, _, _) in zip(mp, leaf["pages"])]))
+                # read_data_page_v2's branch for this leaf's pages (model of the if/elif chain): record assembly?
+                br = pq.call("v2_branch", False, 1, 8 if leaf["dictionary"] else 0)
+                if br != b"assemble":
+                    cmds.append(("run_v2", False, leaf["row_opt"], leaf["elem_opt"], 0, [[mp[0], 1]]))   # -> model error
+                else:
+                    cmds.append(("run_v2", False, leaf["row_opt"], leaf["elem_opt"], n,
+                                 [[p, sum(1 for x in r if x == 0)] for p, (r, _, _) in zip(mp, leaf["pages"])]))
             idx.append((gi, leaf["col"], leaf["which"]))
     outs = pq.batch(cmds) if len(cmds) > 3 else [pq.call(*c) for c in cmds]
     res = {}
@@ -601,6 +609,7 @@ def check_file_case(ctx, pq, w, case, path, conf_budget):
     ctx.count("file.split_class", ",".join(classes) or "good")
     ctx.count("file.page_version", ",".join(map(str, versions)))
     ctx.count("file.values", ",".join(encs))
+    ctx.count("file.codecs", ",".join(sorted({str(lay.get("codec")) for rg in case["rgs"] for lay in rg["layout"].values()})))
     ctx.count("file.kinds", ",".join(sorted(c["kind"] + ("/opt" if c["row_opt"] else "/req") + ("/opt" if c["elem_opt"] else "/req") for c in case["cols"])))
     ctx.count("file.row_groups", len(case["rgs"]))
     ctx.count("file.max_pages_per_chunk", max(len(lay["cuts"]) + 1 for rg in case["rgs"] for lay in rg["layout"].values()))
@@ -652,7 +661,7 @@ def gen_layout(rng, rep, version, force_cuts=None, maxcuts=3):
         cand = list(range(1, len(rep))) if version == 1 else row_boundaries(rep)
         cuts = sorted(rng.sample(cand, min(len(cand), rng.choice([0, 1, 1, 2, maxcuts]))))
     return dict(cuts=cuts, version=version, dictionary=rng.random() < 0.5,
-                level_style=rng.choice(["mixed", "rle", "bp"]))
+                level_style=rng.choice(["mixed", "rle", "bp"]), codec=rng.choice([None, None, "SNAPPY", "GZIP"]))
 
 
 def stage_files(ctx, pq, w):
